@@ -154,6 +154,24 @@ fn chk_fafi(c: &mut Ctx, spec: &[(usize, usize, u128)], pos: usize, cur0: usize)
     }
 }
 
+// ------------------------------------------------------------------ merge_ranges (whole original function; region mr_merge_loop is its loop)
+fn chk_merge(c: &mut Ctx, ranges: &[(usize, usize)]) {
+    c.evaluated += 1;
+    let input = ranges.iter().map(|b| format!("{}-{}", b.0, b.1)).collect::<Vec<_>>().join(" ");
+    match guarded(|| merge_ranges(ranges.to_vec())) {
+        Ok(out) => {
+            let show = out.iter().map(|b| format!("{}-{}", b.0, b.1)).collect::<Vec<_>>().join(" ");
+            if !(out.iter().all(|r| r.0 < r.1) && out.windows(2).all(|w| w[0].1 <= w[1].0)) { c.fail("region_mr_merge_loop", "ensures#0", input, show, "non-empty, sorted, pairwise disjoint".into()); return; }
+            let mut pts: Vec<usize> = vec![]; for r in ranges.iter().chain(out.iter()) { for p in [r.0.saturating_sub(1), r.0, r.0.saturating_add(1), r.1.saturating_sub(1), r.1, r.1.saturating_add(1)] { pts.push(p); } }
+            for &x in &pts {
+                let a = ranges.iter().any(|r| r.0 <= x && x < r.1); let b = out.iter().any(|r| r.0 <= x && x < r.1);
+                if a != b { c.fail("region_mr_merge_loop", "ensures#1", input, format!("{} (position {} {})", show, x, if a { "lost" } else { "invented" }), "same positions as the input ranges".into()); return; }
+            }
+        }
+        Err(p) => c.fail("region_mr_merge_loop", "safety", input, p, "no panic".into()),
+    }
+}
+
 fn chk_sulahd(c: &mut Ctx, n_ops: usize, v: [usize; 4]) {
     c.evaluated += 1;
     let ops: Vec<DiffOp> = (0..n_ops).map(|i| mk_op(0, i, i, 1, 0)).collect();
@@ -214,6 +232,14 @@ fn search(c: &mut Ctx, which: &str, seed: u64) {
             chk_fafi(c, &v, g.below(10) as usize, g.below(n as u64 + 1) as usize);
         }
     }
+    if want("region_mr_merge_loop") || want("merge_ranges") {
+        let pts = [0usize, 1, 2, 3, 5, 6];
+        let iv: Vec<(usize, usize)> = pts.iter().flat_map(|&a| pts.iter().map(move |&b| (a, b))).collect();
+        chk_merge(c, &[]);
+        for a in &iv { chk_merge(c, &[*a]); for b in &iv { chk_merge(c, &[*a, *b]); } }
+        let mut g = Rng(0x0123_4567_89ab_cdef);
+        for _ in 0..40000 { let n = g.below(6) as usize; let v: Vec<(usize, usize)> = (0..n).map(|_| { let s = g.below(12) as usize; (s, s + g.below(5) as usize) }).collect(); chk_merge(c, &v); }
+    }
     // random phase for the scalar ones
     let mut g = Rng(seed.wrapping_mul(0x9E3779B97F4A7C15) ^ 0xA24BAED4963EE407);
     for _ in 0..20000 {
@@ -239,6 +265,7 @@ fn replay(c: &mut Ctx, f: &str, input: &str) {
         "hunk_line_bounds" => { let v: Vec<String> = p[0].split_whitespace().map(|s| s.to_string()).collect(); chk_bounds(c, &v, p[1] == "true") }
         "line_range_to_byte_range" => chk_lrbr(c, &pairs(p[0]), p[1].parse().unwrap(), p[2].parse().unwrap(), p[3].parse().unwrap()),
         "ranges_intersect" => { let t = pairs(p[1]); chk_ri(c, &pairs(p[0]), t[0]) }
+        "region_mr_merge_loop" | "merge_ranges" => chk_merge(c, &pairs(p[0])),
         "find_attribution_for_insertion" => {
             let v: Vec<(usize, usize, u128)> = p[0].split_whitespace().map(|x| { let q: Vec<u128> = x.split('-').map(|y| y.parse().unwrap()).collect(); (q[0] as usize, q[1] as usize, q[2]) }).collect();
             chk_fafi(c, &v, p[1].parse().unwrap(), p[2].parse().unwrap())
